@@ -449,6 +449,15 @@ func nmoveSweeps(p *Prog, r *Report, rule string) {
 				}
 				P := stripVersions(g.P)
 				ts := P.sortedTerms()
+				// "a sowing date is set": date > 0 — with automatic sowing the next crop's date is 0 until it is sown
+				if len(ts) == 1 && len(ts[0].M) == 1 && ts[0].M[0].E == 1 && ts[0].M[0].A.Kind == "cell" && ts[0].M[0].A.Root == "GlobalVarsMain.SAAT" {
+					op := g.Op
+					if ts[0].C.Sign() < 0 {
+						op = flipOp(op)
+					}
+					out["SAAT set"] = "SAAT " + op.String() + " 0"
+					continue
+				}
 				if len(ts) != 2 {
 					continue
 				}
@@ -479,13 +488,13 @@ func nmoveSweeps(p *Prog, r *Report, rule string) {
 				}
 			}
 		}
-		same := credit != nil && call != nil && len(credit) == len(call) && len(call) == 2
+		same := credit != nil && call != nil && len(credit) == len(call) && len(call) >= 2 && call["SAAT"] != "" && call["ERNTE2"] != ""
 		for k, v := range call {
 			if credit[k] != v {
 				same = false
 			}
 		}
-		r.Ob("fixation:window", pos, same, fmt.Sprintf("the fixation credit is booked under %v, the crop routine that computes and counts the fixation runs under %v: must be the same two-sided day window (a day on which the crop routine runs without the credit loses that day's fixation from the balance)", credit, call))
+		r.Ob("fixation:window", pos, same, fmt.Sprintf("the fixation credit is booked under %v, the crop routine that computes and counts the fixation runs under %v: must be the same two-sided day window with the same test that a sowing date is set (a day on which the crop routine runs without the credit loses that day's fixation from the balance; a day on which the credit is booked without the crop routine credits a stale amount)", credit, call))
 	}
 	// the amount credited is today's fixation: every store to the hand-over variable sets it to the fixation just
 	// computed (no dependence on its own previous value: a pending amount would be credited to another day or crop),
